@@ -323,3 +323,82 @@ Proof.
   destruct (jexp_finite e); [|discriminate]. inversion Hwalk; subst.
   exists e. split; [reflexivity|]. apply print_toks.
 Qed.
+
+(* ------------------------------------------------------------------ completeness of check 304's comparison ----
+   in the token sequence of a tree every double is followed by a byte that cannot continue a number *)
+Lemma sep_ok_app_bytes a r : (forall t, In t a -> match t with TBytes _ => True | TDouble _ => False end) -> sep_ok r -> sep_ok (a ++ r).
+Proof.
+  intros Ha Hr. induction a as [|t a IH]; [exact Hr|]. cbn [app].
+  pose proof (Ha t (or_introl eq_refl)) as Ht. destruct t; [|destruct Ht]. cbn [sep_ok]. apply IH. intros t' H'. apply Ha. right. exact H'.
+Qed.
+
+Definition SepP (e : jexp) : Prop := forall r, starts_sep r -> sep_ok r -> sep_ok (jtoks e ++ r) /\ (jtoks e <> [] ).
+
+Lemma jtoks_nonnil : forall e, jtoks e <> [].
+Proof.
+  induction e as [b | z | b | s | e IH | s | z | xs IH | ms IH] using jexp_ind'; cbn [jtoks]; try discriminate.
+  destruct e; try discriminate; exact IH.
+Qed.
+
+Lemma sep_tail_elems l r : Forall (fun e => forall r, starts_sep r -> sep_ok r -> sep_ok (jtoks e ++ r)) l ->
+  sep_ok r ->
+  sep_ok (flat_map (fun y => TBytes [44] :: jtoks y) l ++ TBytes [93] :: r) /\
+  starts_sep (flat_map (fun y => TBytes [44] :: jtoks y) l ++ TBytes [93] :: r).
+Proof.
+  intros HF Hr. induction l as [|y l IH]; [split; [exact Hr | reflexivity]|].
+  inversion HF as [|? ? Hy HF']; subst. destruct (IH HF') as [I1 I2].
+  cbn [flat_map]. rewrite <- app_assoc. cbn [app sep_ok]. split; [|reflexivity].
+  apply Hy; assumption.
+Qed.
+
+Lemma sep_tail_mems (l : list (list Z * jexp)) r :
+  Forall (fun m => forall r, starts_sep r -> sep_ok r -> sep_ok (jtoks (snd m) ++ r)) l ->
+  sep_ok r ->
+  sep_ok (flat_map (fun y => TBytes (44 :: quote_ref (fst y) ++ [58]) :: jtoks (snd y)) l ++ TBytes [125] :: r) /\
+  starts_sep (flat_map (fun y => TBytes (44 :: quote_ref (fst y) ++ [58]) :: jtoks (snd y)) l ++ TBytes [125] :: r).
+Proof.
+  intros HF Hr. induction l as [|y l IH]; [split; [exact Hr | reflexivity]|].
+  inversion HF as [|? ? Hy HF']; subst. destruct (IH HF') as [I1 I2].
+  cbn [flat_map]. rewrite <- app_assoc. cbn [app sep_ok]. split; [|reflexivity].
+  apply Hy; assumption.
+Qed.
+
+Lemma jtoks_sep : forall e r, starts_sep r -> sep_ok r -> sep_ok (jtoks e ++ r).
+Proof.
+  induction e as [b | z | b | s | e IH | s | z | xs IH | ms IH] using jexp_ind'; intros r Hs Hr; cbn [jtoks].
+  - exact Hr.
+  - exact Hr.
+  - cbn [app sep_ok]. split; assumption.
+  - exact Hr.
+  - destruct e; try exact (IH r Hs Hr); cbn [app sep_ok]; try exact Hr.
+    split; [reflexivity|exact Hr].
+  - exact Hr.
+  - exact Hr.
+  - cbn [app sep_ok]. destruct xs as [|x l]; [exact Hr|].
+    inversion IH as [|? ? Hx Hl]; subst. destruct (sep_tail_elems l r Hl Hr) as [I1 I2].
+    rewrite <- !app_assoc. cbn [app]. apply Hx; assumption.
+  - cbn [app sep_ok]. destruct ms as [|m l]; [exact Hr|].
+    inversion IH as [|? ? Hm Hl]; subst. destruct (sep_tail_mems l r Hl Hr) as [I1 I2].
+    cbn [app sep_ok]. rewrite <- !app_assoc. cbn [app]. apply Hm; assumption.
+Qed.
+
+Lemma jtoks_sep_ok e : sep_ok (jtoks e).
+Proof. rewrite <- (app_nil_r (jtoks e)). apply jtoks_sep; exact I. Qed.
+
+(* check 304 never raises a false alarm on the text: whatever spells the spec tree with correctly rounded double lexemes
+   (any JSON number lexeme denoting the bits) is accepted against the marker walk's text *)
+Theorem check304_complete o v d n r m r' out e :
+  wf v = true -> conforms v d = true -> desc_wf d = true -> desc_ok d = true ->
+  (depth v <= n)%nat -> (depth v <= max_skip_depth)%nat ->
+  t2j_walk_gen fd_mark o n d (encode v ++ r) = Some (m, r') ->
+  json_ofw o d v = TOk e -> agrees (jtoks e) out ->
+  text_agrees (S (length m)) m out = true.
+Proof.
+  intros Hw Hc Hdw Hdo Hd Hs Hwalk E Hag.
+  rewrite (walk_refines_w fd_mark o v d n r Hw Hc Hdw Hd Hs) in Hwalk.
+  unfold walk_spec, spec_text_p in Hwalk. rewrite E in Hwalk.
+  destruct (jexp_finite e); [|discriminate]. inversion Hwalk; subst m r'.
+  rewrite (print_toks fd_mark e).
+  apply (text_agrees_complete (jtoks e) out Hag); [|apply jtoks_sep_ok|apply Nat.lt_succ_diag_r].
+  exact (jtoks_ok e (json_ofw_bytes o v d e Hw Hdo E) (json_ofw_wshape o v d e Hw E)).
+Qed.
